@@ -330,3 +330,87 @@ pub fn yaml_same(a: &Y, b: &Y) -> bool {
         (x, y) => x == y,
     }
 }
+
+// ---------------------------------------------------------------------------------------------
+// The harness's own reading of a rule's YAML (used for the repository's rule files): independent
+// of the engine's key tokeniser and identifier parser.
+
+/// `all(k)`, `of(k, n)`, `not(k)`, `int(k)`, `flt(k)`, `str(k)` / `string(k)`, or a plain field
+pub fn parse_key(text: &str) -> Option<Key> {
+    let t = text.trim();
+    for (name, m) in [("all", KMod::All), ("not", KMod::Not), ("int", KMod::Int), ("flt", KMod::Flt), ("str", KMod::Str), ("string", KMod::Str)] {
+        if let Some(rest) = t.strip_prefix(name).and_then(|r| r.strip_prefix('(')) {
+            let inner = rest.strip_suffix(')')?;
+            if inner.contains('(') || inner.contains(')') || inner.contains(',') {
+                return None;
+            }
+            return Some(Key { field: inner.trim().to_string(), modi: m });
+        }
+    }
+    if let Some(rest) = t.strip_prefix("of(") {
+        let inner = rest.strip_suffix(')')?;
+        let (f, n) = inner.rsplit_once(',')?;
+        let n: u64 = n.trim().parse().ok()?;
+        return Some(Key { field: f.trim().to_string(), modi: KMod::Of(n) });
+    }
+    if t.is_empty() || t.contains('(') || t.contains(')') || t.contains(',') {
+        return None;
+    }
+    Some(Key::plain(t))
+}
+
+fn rval_from_yaml(v: &Y, in_list: bool) -> Option<RVal> {
+    Some(match v {
+        Y::String(s) => RVal::Str(s.clone()),
+        Y::Bool(b) => RVal::Bool(*b),
+        Y::Null => RVal::Null,
+        Y::Number(n) => {
+            if let Some(i) = n.as_i64() {
+                RVal::Int(i)
+            } else if n.is_u64() {
+                return None;
+            } else {
+                RVal::Float(n.as_f64()?)
+            }
+        }
+        Y::Mapping(m) => RVal::Map(entries_from_yaml(m)?),
+        Y::Sequence(s) => {
+            if in_list {
+                return None;
+            }
+            RVal::List(s.iter().map(|x| rval_from_yaml(x, true)).collect::<Option<Vec<_>>>()?)
+        }
+        Y::Tagged(_) => return None,
+    })
+}
+
+fn entries_from_yaml(m: &serde_yaml::Mapping) -> Option<Entries> {
+    let mut out = vec![];
+    for (k, v) in m {
+        out.push((parse_key(k.as_str()?)?, rval_from_yaml(v, false)?));
+    }
+    Some(out)
+}
+
+/// Parse a rule's YAML value into the author's AST; None when the harness's reader does not
+/// cover the shape (counted, never a verdict).
+pub fn rule_from_yaml(v: &Y, parse_cond: &dyn Fn(&str) -> Option<Cond>) -> Option<RuleAst> {
+    let det = v.get("detection")?.as_mapping()?;
+    let mut idents = vec![];
+    let mut cond = None;
+    for (k, val) in det {
+        let name = k.as_str()?;
+        if name == "condition" {
+            cond = parse_cond(val.as_str()?);
+            continue;
+        }
+        let id = match val {
+            Y::Mapping(m) => Ident::Map(entries_from_yaml(m)?),
+            Y::Sequence(s) => Ident::Seq(s.iter().map(|x| x.as_mapping().and_then(entries_from_yaml)).collect::<Option<Vec<_>>>()?),
+            _ => return None,
+        };
+        idents.push((name.to_string(), id));
+    }
+    let docs = |key: &str| -> Vec<DVal> { v.get(key).and_then(|x| x.as_sequence()).map(|s| s.iter().map(crate::dval::from_yaml).collect()).unwrap_or_default() };
+    Some(RuleAst { idents, cond: cond?, tp: docs("true_positives"), tn: docs("true_negatives") })
+}
